@@ -49,3 +49,40 @@ func ZvC08_Conc_CleanupVsRefresh() {
 	}
 	vrt.Assert(vrt.LocksHeld() == 0, "C08/cleanup/lock-released")
 }
+
+// ZvC08_Janitor: New with a positive cleanup interval starts the background cleanup, whatever the
+// default expiry is. The real cleanup goroutine (ticker + select loop) runs as an engine thread; the
+// environment fires the ticker at arbitrary instants not before its deadline. Once the clock is past
+// an entry's deadline and every pending tick has been delivered and handled, the entry is gone from
+// the stored state (Count/List — Get would hide it anyway); entries without expiry stay.
+func ZvC08_Janitor() {
+	exp := time.Duration(vrt.Int())
+	interval := time.Duration(vrt.Int())
+	d := time.Duration(vrt.Int())
+	vrt.Assume(vrt.And(exp > -(1<<58), exp < 1<<58, interval > 0, interval < 1<<58, d > 0, d < 1<<58))
+	v := vrt.Int()
+	c := New[string, int](exp, interval)
+	vrt.Settle() // the cleanup goroutine has started and armed its ticker (scheduling latency of `go` is not modelled)
+	c.Set("k", v, d)
+	tSet := vrt.NowNano() // the deadline is at most tSet + d
+	c.Set("live", v, NoExpiration)
+	early := vrt.Choice(2) == 1
+	if early {
+		vrt.Advance() // a tick may or may not arrive while the entry may still be live
+		vrt.Settle()
+		_, ok := c.List()["live"]
+		vrt.Assert(ok, "C08/janitor/never-removes-a-non-expiring-entry")
+	}
+	a := vrt.NowNano()
+	vrt.Quiesce() // every pending tick is delivered at an instant >= a
+	vrt.Settle()  // and handled by the cleanup goroutine
+	if a > tSet+int64(d) {
+		_, still := c.List()["k"]
+		vrt.Assert(!still, "C08/janitor/expired-entry-disappears-once-a-tick-after-its-deadline-is-handled")
+		vrt.Assert(c.Count() == 1, "C08/janitor/Count-agrees")
+		vrt.Cover("C08/janitor/expired-removed")
+	}
+	_, ok := c.List()["live"]
+	vrt.Assert(ok, "C08/janitor/never-removes-a-non-expiring-entry")
+	vrt.Assert(vrt.LocksHeld() == 0, "C08/janitor/lock-released")
+}
